@@ -50,6 +50,13 @@ Theorem C14_utf8_roundtrip : forall t : text, valid_text t = true -> utf8_decode
 Proof. exact utf8_roundtrip. Qed.
 Print Assumptions C14_utf8_roundtrip.
 
+(** The line iterator of [replace] is the division into lines of the substituted text, whatever the
+    substitution does to the single lines: remove their new-lines, insert new-lines, anything. *)
+Theorem C14_replace_lines_are_the_lines_of_the_text :
+  forall (sub : text -> text) (ls : list text), lf_replace sub ls = lines_lf (concat (map sub ls)).
+Proof. exact lf_replace_spec. Qed.
+Print Assumptions C14_replace_lines_are_the_lines_of_the_text.
+
 (** MAIN THEOREM (partial: under the guard [leaves_ok]; without it the statement is refuted below -
     known findings KF-C14-1, KF-C14-2).
     For every source expression (literal, file, program output, any nesting of line transformers
@@ -64,9 +71,9 @@ Proof. exact views_agree. Qed.
 Print Assumptions C14_views_agree_partial.
 
 (** The same for the expressions of the modelled surface language, SOURCE [-transformed-by T] with
-    T built from identity, char-case, filter (any line predicate), run PROGRAM and sequences: the
+    T built from identity, char-case, filter (any line predicate), replace (any substitution), run PROGRAM and sequences: the
     hypotheses about line transformers are discharged; what remains is the guard on the texts and
-    on the external programs ([otrans_ok]: each maps admitted texts to admitted texts). *)
+    on the external programs and substitutions ([otrans_ok]: each maps admitted texts to admitted texts). *)
 Theorem C14_views_agree_language_partial :
   forall (base : src) (t : option trans) (b : N) (accs : list access),
     fresh base -> lfs_ok base -> leaves_ok base = true -> otrans_ok t ->
@@ -171,11 +178,11 @@ Print Assumptions C14_identity_and_conj_idempotent_refuted.
     newline, a buffer smaller than the text, accesses before and after freezing - satisfies the
     hypotheses of the main theorem, rolls over to disk, and shows one value. *)
 Example C14_example :
-  let x := build (SProg [8364; 97; 10; 10; 98; 99] cs0) (Some (TSeq [TId; TFilter (p_num_ge 1); TRun g_cat; TUpper])) in
-  leaves_ok x = true /\ den x = [8364; 65; 10; 10; 66; 67] /\
+  let x := build (SProg [8364; 97; 10; 10; 98; 99] cs0) (Some (TSeq [TId; TReplace (subst [97; 10] [97]); TFilter (p_num_ge 1); TRun g_cat; TUpper])) in
+  leaves_ok x = true /\ den x = [8364; 65; 10; 66; 67] /\
   fst (run 2 [AFile; AFreeze; ADep; ALines; AStr; AFile] x)
-  = [OFile (FText [8364; 65; 10; 10; 66; 67]); OFrozen; ODep true; OLines [[8364; 65; 10]; [10]; [66; 67]];
-     OStr [8364; 65; 10; 10; 66; 67]; OFile (FText [8364; 65; 10; 10; 66; 67])].
+  = [OFile (FText [8364; 65; 10; 66; 67]); OFrozen; ODep true; OLines [[8364; 65; 10]; [66; 67]];
+     OStr [8364; 65; 10; 66; 67]; OFile (FText [8364; 65; 10; 66; 67])].
 Proof. cbv zeta. split; [vm_compute; reflexivity|]. split; vm_compute; reflexivity. Qed.
 
 (** Non-vacuity of the consequences: a matcher using every construct, expected text from a program,
